@@ -598,6 +598,54 @@ def rule_offset(db, chk, cfg, rule="POLY.offset"):
             text = "cap: appends path[j] - |delta| norms[j], then path[j] + |delta| norms[j]"
         ok = all(em[i][ax].same(w[i][ax]) for i in (0, 1) for ax in (0, 1))
         judge(f.qual, "bevel.%s" % which, ok, text, br[0], "%s, %s | %s, %s" % (_short(em[0][0], 40), _short(em[0][1], 40), _short(em[1][0], 40), _short(em[1][1], 40)))
+    # DoSquare: the squaring line passes through Q = path[j] + |delta| vec (vec: the unit bisector chosen by the branch on j == k, kept
+    # symbolic) and runs perpendicular to vec: the two points handed to GetSegmentIntersectPt as its first segment are Q +- delta perp(vec),
+    # and Q is the centre of the reflection that produces the second vertex
+    f = db.one("ClipperOffset::DoSquare")
+    from ..poly import Agg
+    vec_decl = None
+    for st in kids(f.body):
+        if st.get("kind") == "DeclStmt":
+            for d in kids(st):
+                init = [c0 for c0 in kids(d) if isinstance(c0, dict) and c0.get("kind")]
+                if d.get("kind") == "VarDecl" and "Point<" in (dqt(d) or "") and (not init or all(c0.get("kind") == "CXXConstructExpr" and not kids(c0) for c0 in init)):
+                    vec_decl = d
+                    break
+        if vec_decl is not None:
+            break
+    if vec_decl is None:
+        raise AnalysisBroken("POLY.offset: the bisector local of DoSquare (a point declared without a value, assigned by the branch on j == k) was not found")
+    pe = PolyEval(db, extended=True)
+    pe.pinned = {vec_decl["id"]}
+    pe.env[vec_decl["id"]] = Agg(base="vec")
+    pe.bind_block(f.body)
+    absd = [s_ for s_ in UFUNCS if UFUNCS[s_][0] in ("abs", "fabs") and UFUNCS[s_][1][0].same(dlt)]
+    vx, vy = V("vec.x"), V("vec.y")
+    isects = [c for c in walk(f.body) if c.get("kind") == "CallExpr" and db.callee(c)[0] == "GetSegmentIntersectPt"]
+    refl = [c for c in walk(f.body) if c.get("kind") == "CallExpr" and db.callee(c)[0] == "ReflectPoint"]
+    if not isects or not refl:
+        raise AnalysisBroken("POLY.offset: DoSquare no longer calls GetSegmentIntersectPt / ReflectPoint")
+    for c in isects:
+        try:
+            A0, A1 = pe._agg_of(db.call_args(c)[0]), pe._agg_of(db.call_args(c)[1])
+        except Unsupported as e:
+            raise AnalysisBroken("POLY.offset: the squaring line of DoSquare is not arithmetic: %s" % e)
+        ok = False
+        for ab in absd:
+            Qx, Qy = pj[0] + V(ab) * vx, pj[1] + V(ab) * vy
+            for sg in (1, -1):
+                s1 = Rat.const(sg)
+                if A0.get("x").same(Qx + s1 * dlt * vy) and A0.get("y").same(Qy - s1 * dlt * vx) and A1.get("x").same(Qx - s1 * dlt * vy) and A1.get("y").same(Qy + s1 * dlt * vx):
+                    ok = True
+        judge(f.qual, "square.line@%s" % c.get("line"), ok, "the squaring line runs through path[j] + |delta| vec, perpendicular to vec (end points Q +- delta perp(vec))", c,
+              "%s, %s" % (_short(A0.get("x"), 50), _short(A0.get("y"), 50)))
+    for c in refl:
+        try:
+            Q = pe._agg_of(db.call_args(c)[1])
+        except Unsupported as e:
+            raise AnalysisBroken("POLY.offset: the reflection centre of DoSquare is not arithmetic: %s" % e)
+        ok = any(Q.get("x").same(pj[0] + V(ab) * vx) and Q.get("y").same(pj[1] + V(ab) * vy) for ab in absd)
+        judge(f.qual, "square.centre@%s" % c.get("line"), ok, "the second vertex is the first one reflected in path[j] + |delta| vec", c, "%s, %s" % (_short(Q.get("x"), 50), _short(Q.get("y"), 50)))
     # DoRound: first point and rotation step
     f = db.one("ClipperOffset::DoRound")
     em, pe = _emplaced(db, fac, f.body)
